@@ -1,7 +1,7 @@
 (* C08 (structural part) property theorems: statements only; every proof is [exact lemma]. *)
 From Gv Require Import C08.Model C08.Spec C08.ProofsSpec C08.ProofsSort C08.ProofsWaves
   C08.ProofsOrganize C08.ProofsMember C08.ProofsMulti C08.ProofsExamples C08.ProofsComplete
-  C08.ModelPaths C08.SpecPaths C08.ProofsPaths.
+  C08.ModelPaths C08.SpecPaths C08.ProofsPaths C08.ProofsUnion.
 From Coq Require Import List Arith Bool Permutation Sorted.
 Import ListNotations.
 
@@ -227,3 +227,36 @@ Proof.
   intros pl. split; [apply segments_ok_b_sound | split; [apply covers_b_sound | apply writes_above_b_spec]].
 Qed.
 Print Assumptions c08_path_checks_sound.
+
+(* ---- unionDependencies (create_multi_fetch.go), exactly ---- *)
+
+(* (8a) the dependency list written on a merged fetch is, as a set, the union of its members'
+   dependencies minus the member ids, and it carries no entry twice *)
+Theorem c08_union_dependencies_exact :
+  forall members,
+  (forall d, In d (union_deps members (ids members)) <->
+             exists m, In m members /\ In d (fdeps m) /\ ~ In d (ids members)) /\
+  NoDup (union_deps members (ids members)).
+Proof. exact union_deps_exact. Qed.
+Print Assumptions c08_union_dependencies_exact.
+
+(* (8b) as a list: the non-member entries of the members' lists, concatenated in member order, each
+   kept at its first occurrence (duplicates inside one member's list included) *)
+Theorem c08_union_dependencies_order :
+  forall members mids,
+  union_deps members mids =
+  union [] (filter (fun d => negb (memb d mids)) (flat_map fdeps members)).
+Proof. exact union_deps_closed. Qed.
+Print Assumptions c08_union_dependencies_order.
+
+(* (8c) leaving the scan of a member's list at the first dependency that is already collected
+   (`break` for `continue`) is not a correct unionDependencies: members depending on [0;1] and
+   [0;2] give [0;1]; the dependency on 2 is lost *)
+Theorem c08_union_dependencies_break_refuted :
+  exists members,
+    union_deps members (ids members) = [0; 1; 2] /\
+    union_deps_break members (ids members) = [0; 1] /\
+    ~ (forall d, In d (union_deps_break members (ids members)) <->
+                 exists m, In m members /\ In d (fdeps m) /\ ~ In d (ids members)).
+Proof. exact union_deps_break_loses. Qed.
+Print Assumptions c08_union_dependencies_break_refuted.
